@@ -191,8 +191,42 @@ ACC2 = [  # (lean name, qualified python name, params, ptypes, ret, raising, ctx
     ("vertexToCorners", "SurfaceMesh._Connectivity.vertex_to_corners", ["self", "V"], [None, "Nat"], "Option (List Nat)", False),
     ("vertexToVertices", "PolyLine._Connectivity.vertex_to_vertices", ["self", "V"], [None, "Nat"], "List Nat", True),
 ]
+ACC3_EXPRS = [
+    ("self._adjF2Cn[M_f]", "(dictGet p0__adjF2Cn {f})", "Nat", True),
+    ("self.mesh.faces[M_f]", "(Mouette.Surface.faceOf S {f})", "List Nat"),
+    ("range(M_n)", "(List.range {n})", "List Nat"),
+    ("self.face_to_corners(M_f)", "(Mouette.Surface.faceToCorners S {f})", "List Nat", True),
+    ("self.opposite_corner(M_c)", "(Mouette.Surface.oppositeCorner S {c})", "Option Nat"),
+    # `corner_to_face` of an existing corner is never None: the list keeps the faces of the opposite corners that exist
+    ("[self.corner_to_face(M_o) for M_o in M_l if M_o is not None]", "({l}.filterMap fun o => o.bind (Mouette.Surface.cornerToFace S))", "List Nat"),
+]
+ACC3 = [
+    ("faceToFirstCorner", "SurfaceMesh._Connectivity.face_to_first_corner", ["self", "F"], [None, "Nat"], "Nat", True),
+    ("faceToCorners", "SurfaceMesh._Connectivity.face_to_corners", ["self", "F"], [None, "Nat"], "List Nat", True),
+    ("faceToFaces", "SurfaceMesh._Connectivity.face_to_faces", ["self", "F"], [None, "Nat"], "List Nat", True),
+]
+ACC3_GUARDS = ["if self._adjF2Cn is None:\n    self._compute_connectivity()"]
+ACC4_CTX = ("(p0__boundary_edges p0__interior_edges p0__boundary_vertices p0__interior_vertices : List Nat) "
+            "(p0__is_vertex_on_border : BoolMap) (p0__is_triangular p0__is_quad : Bool)")
+ACC4_ENV = {"self._boundary_edges": "List Nat", "self._interior_edges": "List Nat", "self._boundary_vertices": "List Nat",
+            "self._interior_vertices": "List Nat", "self._is_vertex_on_border": "BoolMap", "self._is_triangular": "Bool", "self._is_quad": "Bool"}
+ACC4 = [  # the lazily cached accessors of SurfaceMesh: `if self._x is None: self._compute…(); return self._x`
+    ("isVertexOnBorder", "SurfaceMesh.is_vertex_on_border", ["self", "u"], [None, "Nat"], "Bool"),
+    ("interiorEdges", "SurfaceMesh.interior_edges", ["self"], [None], "List Nat"),
+    ("boundaryEdges", "SurfaceMesh.boundary_edges", ["self"], [None], "List Nat"),
+    ("boundaryVertices", "SurfaceMesh.boundary_vertices", ["self"], [None], "List Nat"),
+    ("interiorVertices", "SurfaceMesh.interior_vertices", ["self"], [None], "List Nat"),
+    ("isTriangular", "SurfaceMesh.is_triangular", ["self"], [None], "Bool"),
+    ("isQuad", "SurfaceMesh.is_quad", ["self"], [None], "Bool"),
+]
+ACC4_GUARDS = ["if self._is_vertex_on_border is None:\n    self._compute_interior_boundary_vertices()",
+               "if self._interior_edges is None:\n    self._compute_interior_boundary_edges()",
+               "if self._boundary_edges is None:\n    self._compute_interior_boundary_edges()",
+               "if self._boundary_vertices is None:\n    self._compute_interior_boundary_vertices()",
+               "if self._interior_vertices is None:\n    self._compute_interior_boundary_vertices()",
+               "if self._is_triangular is None:\n    self._compute_mesh_type()", "if self._is_quad is None:\n    self._compute_mesh_type()"]
 ACC2_GUARDS = ["if self._adjV2Cn is None:\n    self._compute_connectivity()", "if self._adjV2V is None:\n    self._compute_connectivity()"]
-ACC2_FUNCTIONS = [a[1] for a in ACC2]
+ACC2_FUNCTIONS = [a[1] for a in ACC2] + [a[1] for a in ACC3] + [a[1] for a in ACC4]
 
 
 def acc2_defs():
@@ -205,6 +239,14 @@ def acc2_defs():
                      init_env={"self._adjV2Cn": "V2Cn", "self._adjV2V": "V2Cn"},
                      returns=[("(None, None)", "none")] if lean == "commonEdge" else [])
         out.append(PL.compile_function(lean, T.find_def(ts if py.startswith("Surface") else tl, py), v, f"`{py.split('.', 1)[1]}`"))
+    for lean, py, params, ptypes, ret, raising in ACC3:
+        v = PL.Vocab(params, ptypes, exprs=ACC3_EXPRS, drop=ACC3_GUARDS, ret=ret, raising=raising,
+                     ctx="(S : Surf) (p0__adjF2Cn : FDict)", ctxargs="S p0__adjF2Cn", init_env={"self._adjF2Cn": "FDict"})
+        out.append(PL.compile_function(lean, T.find_def(ts, py), v, f"`{py.split('.', 1)[1]}` on the filled `_adjF2Cn`; `none` = KeyError"))
+    for lean, py, params, ptypes, ret in ACC4:
+        v = PL.Vocab(params, ptypes, exprs=[], subs={"BoolMap": {"get": ("(Mouette.PySrc.boolGet {x} {k})", "Bool", False)}}, drop=ACC4_GUARDS, ret=ret,
+                     ctx=ACC4_CTX, ctxargs="", init_env=ACC4_ENV)
+        out.append(PL.compile_function("m_" + lean, T.find_def(ts, py), v, f"`{py}` on the filled caches (the lazy guard is the guard table's business)"))
     return "\n".join(out)
 
 
@@ -287,8 +329,8 @@ def sort_defs():
                                "`_Connectivity._sort_vertex_neighborhoods`: (`_adjV2Cn`, `_adjV2V`) after the loop over the vertices")
 
 
-ACC2_HEADER = ("import Mouette.Model.SurfSource\nset_option linter.unusedVariables false\nnamespace Mouette.Generated.C01Acc\n"
-               "open Mouette.Surface Mouette.SurfSource\n\n")
+ACC2_HEADER = ("import Mouette.Model.SurfSource\nimport Mouette.Model.PySrc\nset_option linter.unusedVariables false\nnamespace Mouette.Generated.C01Acc\n"
+               "open Mouette.Surface Mouette.SurfSource Mouette.PySrc\n\n")
 _T2 = "(S : Surf) (p0__adjV2Cn p0__adjV2V : V2Cn)"
 ACC2_FALLBACK = ("/- the translator refused the current source: stubs (the bridges of Props/C01Source do not hold for them) -/\n"
                  f"def inFaceIndex {_T2} (p1 p2 : Nat) : Option Nat := some 0\n"
@@ -296,7 +338,12 @@ ACC2_FALLBACK = ("/- the translator refused the current source: stubs (the bridg
                  f"def faceToVertices {_T2} (p1 : Nat) : List Nat := [0]\n"
                  f"def edgeToVertices {_T2} (p1 : Nat) : Option (Nat × Nat) := some (0, 0)\n"
                  f"def vertexToCorners {_T2} (p1 : Nat) : Option (List Nat) := some [0]\n"
-                 f"def vertexToVertices {_T2} (p1 : Nat) : Option (List Nat) := some [0]\n")
+                 f"def vertexToVertices {_T2} (p1 : Nat) : Option (List Nat) := some [0]\n"
+                 "def faceToFirstCorner (S : Surf) (p0__adjF2Cn : FDict) (p1 : Nat) : Option Nat := some 0\n"
+                 "def faceToCorners (S : Surf) (p0__adjF2Cn : FDict) (p1 : Nat) : Option (List Nat) := some [0]\n"
+                 "def faceToFaces (S : Surf) (p0__adjF2Cn : FDict) (p1 : Nat) : Option (List Nat) := some [0]\n" +
+                 "".join(f"def m_{lean} {ACC4_CTX}" + "".join(f" (p{i} : {t})" for i, t in enumerate(pt) if t) + f" : {ret} := " +
+                         ("[0]" if ret.startswith("List") else "true") + "\n" for lean, py, pa, pt, ret in ACC4))
 SORT_HEADER = ("import Mouette.Model.SurfSource\nset_option linter.unusedVariables false\nnamespace Mouette.Generated.C01Sort\n"
                "open Mouette.Surface Mouette.SurfSource\n\n")
 SORT_FALLBACK = """/- the translator refused the current source: stubs (the bridges of Props/C01Source do not hold for them) -/
